@@ -57,6 +57,11 @@ def gen_run(rng, tier):
     scn = gen.gen_run_scenario(rng, tier, nfiles=nfiles, lines=rng.choice([3, 20, 200]),
                                constraint=0.0, empty=0.1)
     scn['max_parallel_tasks'] = rng.choice([0, 1, 2, 3, 4, 8, 16])
+    if nfiles >= 2 and rng.random() < 0.25:
+        # an environment fault in the PARENT after the jobs were handed out: `ps` (used when
+        # the pool is torn down) is not on PATH / the connection to the manager breaks while
+        # the store is un-proxied.  run() may raise; no task may run twice or in the caller.
+        scn['_env_fault'] = rng.choice(['no_ps', 'unproxy_oserror'])
     return scn
 
 
@@ -77,6 +82,17 @@ def run_real(scn):
     wrapped.__name__ = 'execute'
     wrapped.__qualname__ = 'SearchTask.execute'
     TK.SearchTask.execute = wrapped
+    old_path = os.environ.get('PATH')
+    from searchkit import results_store as RS
+    orig_unproxy = RS.ResultStoreParallel.unproxy_results
+    fault = scn.get('_env_fault')
+    if fault == 'no_ps':
+        os.makedirs(os.path.join(tmpdir, '_nobin'))
+        os.environ['PATH'] = os.path.join(tmpdir, '_nobin')
+    elif fault == 'unproxy_oserror':
+        def unproxy_results(self):
+            raise BrokenPipeError(32, 'Broken pipe (injected)')
+        RS.ResultStoreParallel.unproxy_results = unproxy_results
     try:
         built = S.Built(scn, tmpdir)
         fs = built.searcher()
@@ -92,6 +108,11 @@ def run_real(scn):
                 'err': obs.get('err'), 'files': [os.path.relpath(p, tmpdir) for p in fs.files]}
     finally:
         TK.SearchTask.execute = orig
+        RS.ResultStoreParallel.unproxy_results = orig_unproxy
+        if old_path is not None:
+            os.environ['PATH'] = old_path
+        if fault:
+            core.kill_children()
         shutil.rmtree(tmpdir, ignore_errors=True)
 
 
@@ -139,13 +160,24 @@ def judge_run(rep, item, mo, mplan):
                                             'pids': len(pids)})
     rep.count('real_runs')
     rep.count('real_tasks', len(impl['recs']))
-    if impl['err']:
+    fault = scn.get('_env_fault')
+    if fault:
+        rep.count('env_fault_runs')
+        rep.count('env_fault_run_raised' if impl['err'] else 'env_fault_run_returned')
+    if impl['err'] and not fault:
         rep.fail('failing-input', scn, f"run() raised {impl['err']}", impl=impl)
         return
     per_path = {}
     for r in impl['recs']:
         per_path[r[1]] = per_path.get(r[1], 0) + 1
-    if sorted(per_path) != sorted(impl['files']) or any(v != 1 for v in per_path.values()):
+    if fault and impl['err']:
+        # the run was cut short by the fault: no task twice, none invented
+        if any(v > 1 for v in per_path.values()) or not set(per_path) <= set(impl['files']):
+            rep.fail('failing-input', scn,
+                     f"environment fault {fault}: tasks executed per path {per_path} for files "
+                     f"{impl['files']}", impl=impl)
+            return
+    elif sorted(per_path) != sorted(impl['files']) or any(v != 1 for v in per_path.values()):
         rep.fail('failing-input', scn,
                  f"tasks executed per path {per_path} for files {impl['files']}", impl=impl)
         return
@@ -163,6 +195,8 @@ def judge_run(rep, item, mo, mplan):
                  f"{len(pids)} distinct worker processes executed tasks; bound is "
                  f"min(max_parallel_tasks={m}, cpus={impl['cpus']}, files={nfiles}) = {bound}",
                  impl=impl)
+        return
+    if fault and impl['err']:
         return
     if mplan != ['pool', impl['npar']]:
         rep.fail('correspondence-broken', scn, f"plan impl pool({impl['npar']}) model {mplan}",
